@@ -17,6 +17,11 @@ ASSUMPTIONS = [
     "whole-object checks return errors without nested Invalids (obj_errs_flat); user-written validators name themselves",
     "identity is demanded at type/coercion failures and wherever the node has neither coercer nor preprocessors; not where a configured coercer happens to pass the object through",
 ]
+from ..facts import effects as _effects  # noqa: E402
+_FX = _effects.obligation("C14")
+EXTRA_PROOF_FILES = [_FX[0]]
+TRUSTED_EXTRA = [_FX[1]]
+regenerate_facts = _FX[2]
 
 
 def cases(tier: str, rng: random.Random) -> List[Case]:
@@ -62,7 +67,55 @@ def cases(tier: str, rng: random.Random) -> List[Case]:
                 m = rng.choice(["sync", "async"])
                 out.append(std_case(("ListV", ch, [], [], None), ("VList", [a, b, a]), m, tag="a:lookalikes"))
                 out.append(std_case(("MapV", ch, ch, [], [], None), ("VDict", [P(G.S("k"), a), P(G.S("j"), b)]), m, tag="a:lookalikes"))
+    # mappings that are not plain dicts (the caller's own object is what the error must hold)
+    INT = ("Scalar", ("KInt",), None, [], [], [])
+    for t in [("RecordV", [P(G.S("a"), INT), P(G.S("b"), ("KeyNotRequired", INT))], N(2), None, None, rng.random() < 0.5),
+              ("RecordV", [P(G.S("k"), INT)], N(0), None, None, True),
+              ("ClassV", ("RkData",), N(G.C_DATA), [P(G.S("a"), P(INT, True)), P(G.S("b"), P(INT, False))], None, None, True, None),
+              ("ClassV", ("RkTyped",), N(G.C_TYPED), [P(G.S("k"), P(INT, True)), P(G.S("o"), P(INT, False))], None, None, True, None),
+              ("MapV", STRIP, INT, [("PMaxKeys", 1)], [], None), ("IsDictV",),
+              ("DictAnyV", [P(G.S("k"), INT)], None, None, True)]:
+        for kv in ([P(G.S("k"), G.I(1))], [P(G.S("a"), G.S("no"))], [P(G.S("zz"), G.I(1))], [], [P(G.S("a"), G.I(1)), P(G.S("q"), G.I(2))]):
+            for x in (("VSub", N(G.C_DICT), ("VDict", kv)), ("VDict", kv)):
+                for m in ("sync", "async"):
+                    out.append(std_case(t, x, m, tag="a:mapping-subclass"))
+                    out.append(std_case(("ListV", t, [], [], None), ("VList", [x, x]), m, tag="a:mapping-subclass"))
+    # elements whose checks take different times (an element's error belongs at the element's position)
+    AINT = ("Scalar", ("KInt",), None, [], [], [("APred", N(2))])
+    for _ in range(40 if tier == "quick" else 600):
+        xs = [rng.choice([G.I(0), G.I(1), G.I(2), G.I(3), G.S("x"), G.NONE, G.I(4), G.I(7)]) for _ in range(rng.choice([2, 3, 4, 5]))]
+        k = rng.choice(["ListV", "UTupleV", "SetV"])
+        if k == "SetV":
+            xs = G.dedupe_hashable(xs)
+        out.append(std_case((k, AINT, [], [], None), ({"ListV": "VList", "UTupleV": "VTuple", "SetV": "VSet"}[k], xs), "async", tag="a:latency"))
+        out.append(std_case(("MapV", AINT, AINT, [], [], None), ("VDict", [P(x, x) for x in G.dedupe_hashable(xs)]), "async", tag="a:latency"))
     return out
+
+
+def histories(tier: str, rng: random.Random):
+    """Error trees mirror the validator tree on a used instance too (variant k of a union's error is
+    variant k's error whatever the union matched before)."""
+    from .hist import history_violation
+    INT = ("Scalar", ("KInt",), None, [], [], [])
+    STR = ("Scalar", ("KStr",), None, [], [], [])
+    FLT = ("Scalar", ("KFloat",), None, [], [], [])
+    unions = [("UnionV", [INT, STR, FLT]), ("UnionV", [("NoneV", None), ("ListV", INT, [], [], None), STR]),
+              ("ListV", ("UnionV", [INT, STR, FLT]), [], [], None), ("OptionalV", ("NoneV", None), ("UnionV", [STR, INT]))]
+    alpha = [G.I(1), G.S("s"), G.F1, G.NONE, G.TRUE, ("VList", [G.I(1)]), ("VList", [G.S("x")])]
+    bad, n = [], 0
+    judge = lambda d: type(d["got"]) is Invalid or type(d["alone"]) is Invalid
+    for u in unions:
+        for _ in range(60 if tier == "quick" else 1500):
+            a = rng.choice(alpha)
+            seq = [a] * rng.choice([1, 2, 3]) + [rng.choice(alpha) for _ in range(rng.choice([1, 2]))]
+            if u[0] == "ListV":
+                seq = [("VList", [x]) for x in seq]
+            ops = [(rng.choice(["sync", "sync", "async"]), x) for x in seq]
+            n += 1
+            v = history_violation("C14", u, [], ops, what="error tree depends on earlier calls: ", judge=judge)
+            if v and not bad:
+                bad.append(v)
+    return bad, n
 
 
 CHILD_ATTRS = {
@@ -116,8 +169,44 @@ def direct_children(e: Any) -> List[Any]:
     return []
 
 
+def plain(v: Any) -> bool:
+    """no coercer and no preprocessors configured: the value in hand is the caller's own object at every stage"""
+    return (type(v).__name__ in CHILD_ATTRS or type(v).__module__.startswith("koda_validate")) and \
+        getattr(v, "coerce", None) is None and not getattr(v, "preprocessors", None)
+
+
+def child_inputs(v: Any, x: Any, e: Any) -> List[Any]:
+    """The caller's own element / member / key / value each direct child error is about, where it can be
+    told from the input (same order as direct_children); _NOARG elsewhere."""
+    n = len(direct_children(e))
+    none = [_NOARG] * n
+    if x is _NOARG:
+        return none
+    name = type(v).__name__
+    try:
+        if isinstance(e, KE.IndexErrs) and name in ("ListValidator", "UniformTupleValidator", "NTupleValidator") \
+                and type(x) in (list, tuple):
+            return [x[i] if 0 <= i < len(x) else _NOARG for i in e.indexes.keys()]
+        if isinstance(e, KE.KeyErrs) and isinstance(x, dict):
+            return [x[k] if k in x else _NOARG for k in e.keys.keys()]
+        if isinstance(e, KE.MapErr) and isinstance(x, dict):
+            out = []
+            for k, kv in e.keys.items():
+                if kv.key is not None:
+                    out.append(next((kk for kk in x if kk is k), _NOARG))
+                if kv.val is not None:
+                    out.append(x[k] if k in x else _NOARG)
+            return out
+        if isinstance(e, KE.UnionErrs):
+            return [x] * n
+    except Exception:  # noqa
+        return none
+    return none
+
+
 def walk(v: Any, x: Any, inv: Any, path: str) -> Optional[str]:
-    """node_ok, recursively, on live objects: who by identity, gate-error values by identity."""
+    """node_ok, recursively, on live objects: who by identity, values by identity wherever nothing
+    has been coerced or preprocessed yet."""
     v = resolve(v)
     if type(inv) is not Invalid:
         return f"{path}: not an Invalid: {inv!r}"
@@ -126,15 +215,22 @@ def walk(v: Any, x: Any, inv: Any, path: str) -> Optional[str]:
     e = inv.err_type
     if isinstance(e, (KE.TypeErr, KE.CoercionErr)) and x is not _NOARG and inv.value is not x:
         return f"{path}: type/coercion failure holds {inv.value!r}, not the caller's own object {x!r}"
+    if x is not _NOARG and inv.value is not x and plain(v) and isinstance(
+            e, (KE.PredicateErrs, KE.KeyErrs, KE.ExtraKeysErr, KE.IndexErrs, KE.SetErrs, KE.MapErr, KE.UnionErrs)) \
+            and (type(v).__name__ not in ("DataclassValidator", "NamedTupleValidator") or isinstance(x, dict)):
+        return f"{path}: nothing is coerced or preprocessed by {v!r}, yet its {type(e).__name__} node holds {inv.value!r} (id {id(inv.value)}), not the caller's own object {x!r} (id {id(x)})"
     kids = children_of(v)
+    kid_x = child_inputs(v, x, e)
     for i, ch in enumerate(direct_children(e)):
         if type(ch) is Invalid and isinstance(ch.err_type, KE.MissingKeyErr) and ch.validator is v:
+            if x is not _NOARG and plain(v) and isinstance(x, dict) and ch.value is not x:
+                return f"{path}/{i}: the missing-key node holds {ch.value!r}, not the mapping that lacks the key"
             continue
         owner = next((k for k in kids if ch.validator is k), None)
         if owner is None:
             # an error produced deeper by a union/optional child still names that child
             return f"{path}/{i}: child error names {ch.validator!r}, which is not a child validator of {v!r}"
-        r = walk(owner, _NOARG, ch, f"{path}/{i}")
+        r = walk(owner, kid_x[i], ch, f"{path}/{i}")
         if r:
             return r
     return None
@@ -161,8 +257,17 @@ def nontrivial(c: Case) -> bool:
 
 
 def run(tier: str, rng: random.Random, proof_ok: bool) -> dict:
-    return run_families("C14", cases(tier, rng), rng, oracle, nontrivial)
+    rep = run_families("C14", cases(tier, rng), rng, oracle, nontrivial)
+    bad, n = histories(tier, rng)
+    rep["violations"] += bad
+    rep["coverage"]["histories_on_one_instance"] = n
+    return rep
 
 
 def replay(path: str) -> int:
-    return generic_replay(path, oracle)
+    import json
+    from .hist import replay_special
+    rc = json.load(open(path)).get("replay_case")
+    judge = lambda d: type(d["got"]) is Invalid or type(d["alone"]) is Invalid
+    r = replay_special(rc, "C14", judge=judge) if isinstance(rc, dict) else None
+    return r if r is not None else generic_replay(path, oracle)
